@@ -3,6 +3,5 @@
 ID="$1"; W="$2"; DEST="$3"; shift 3
 cd /verif
 echo "### $DEST"
-./seedtest.sh "$ID" "$W/SEED/patch.diff" "$@" | tail -${#@} 
-[ $# -eq 0 ] && true
+./seedtest.sh "$ID" "$W/SEED/patch.diff" "$@" | grep "^seed="
 ./seedverify.sh "$ID" "$W" "$DEST" 2>&1 | tail -2
